@@ -173,7 +173,7 @@ def _kf_drop_aggregate(family, case, disc):
 @known.finding("C03/add_missing_columns-insert-position-ignores-regex-columns")
 def _kf_add_missing_regex_order(family, case, disc):
     spec = case["spec"]
-    if not (family == "pandas" and spec.get("add_missing_columns") and spec.get("ordered")
+    if not (family in ("pandas", "polars") and spec.get("add_missing_columns") and spec.get("ordered")
             and any(c.get("regex") for c in spec.get("columns", []))):
         return False
     return disc.kind in ("returned-object-violates-reference:COLUMN_NOT_ORDERED", "returned-object-violates-schema:COLUMN_NOT_ORDERED",
